@@ -243,7 +243,7 @@ def _states(c):
         if meth == "count_splits_on_tree":
             if cache != "none":
                 continue
-            for nwk, wt, use, upd in itertools.product(("[&R] ((a,b),c);", "[&U] (a,b,c);", "[&R] (a,(b,c));"), (None, 0.25, 2.0), (True, False), (False, True)):
+            for nwk, wt, use, upd in itertools.product(("[&R] ((a,b),c);", "[&U] (a,b,c);", "[&R] (a,(b,c));"), (None, 0.25, 2.0, 0, 0.0), (True, False), (False, True)):
                 me = SplitDistribution(taxon_namespace=dendropy.TaxonNamespace(["a", "b", "c"]), use_tree_weights=use)
                 me.split_counts.update(tb)
                 me.total_trees_counted, me.sum_of_tree_weights = nt, sw
